@@ -139,11 +139,16 @@ def u_poisson_compat(root):
     frac = lambda t: t - z3.ToReal(z3.ToInt(t))
 
     def mod(e, a, b):
+        if isinstance(a, VNum):           # a single element (code that picks one entry of the data): the post then decides whether that is enough
+            return VNum(frac(a.real()))
         return VSeq(FnArr(lambda k_: frac(a.arr[k_])), a.len)
     eng.mod_model = mod
 
     def cnz(e, st, a, kw, n):
         r = fresh("count_nonzero", I)
+        if isinstance(a[0], VNum):
+            st.assume(z3.And(r >= 0, (r > 0) == (a[0].real() != 0)))
+            return VNum(r)
         st.assume(z3.And(r >= 0, (r > 0) == z3.Exists([i], z3.And(0 <= i, i < a[0].len, a[0].arr[i] != 0))))
         return VNum(r)
     eng.lib["np.count_nonzero"] = cnz
